@@ -5,7 +5,7 @@ enumeration over the OS-request sequence of several workloads and option rows, r
 import os
 import vcommon as V
 
-TRUSTED = ['Lean 4 kernel', 'extract/translate.py for Gen.mi_segment_commit_mask (validated by the translator-validation harness of C16)',
+TRUSTED = ['Lean 4 kernel', 'extract/translate.py for the loop functions in Gen/Loops.lean (mi_commit_mask_create, _mi_commit_mask_committed_size), validated against the running functions on every run (harness/c07 cmask|csize -> Driver/C07cm)', 'extract/translate.py for Gen.mi_segment_commit_mask (validated by the translator-validation harness of C16)',
            'hand-written Model/Commit.lean (segment commit/purge/ensure-committed, arena alloc/free/purge at bookkeeping-unit granularity); tied to the code by the step-wise correspondence (harness/c07.c seg / arena modes vs Driver/C07.lean)',
            'harness/oshim.h (macro renaming of mmap/munmap/mprotect/madvise when compiling src/static.c; per-page accessibility record; refusal injection)',
            'NULL propagation through segment / page / heap allocation, retry after collect, thread metadata, mmap / munmap refusals: covered by the refusal enumeration on the real allocator only (no model)']
@@ -16,7 +16,7 @@ def run(chk):
     chk.assumptions = ['a refused request has no effect on the address space (the shim does not forward it)', 'refusal patterns: one refused request at position k, or every request from position k on',
                        'in the model the OS layer is "honest": access is revoked by a purge only when it also reports that a re-commit is needed (checked on every direct-drive step)']
     chk.extra['rule'] = ('obligations = theorems of Props/C07.lean; evaluations = direct-drive steps replayed through the model + children of the refusal enumeration; distinct = (build, workload, row, mode, k) and step lines')
-    chk.lean('MiVerif.Props.C07', ['Arith', 'Commit', 'ArenaGen'])
+    chk.lean('MiVerif.Props.C07', ['Arith', 'Commit', 'ArenaGen', 'Loops'])
     okd, exe, log = V.build_driver()
     if not okd:
         chk.broken_tie('lean driver does not build', log[-1500:])
@@ -65,6 +65,29 @@ def run(chk):
                     # the harness's own state invariant (FAIL lines above) - otherwise the tie is broken without a failing input
                     chk.broken_tie('correspondence Model.Commit vs src/segment.c / src/arena.c (%s build, %s)' % (tag, ' '.join(cmd[1:])), ((dl or [err2 or out2])[0])[:600] + ' | ' + args['how_to_run'])
         chk.extra['direct_drive_steps_replayed'] = steps
+        # ---- translator validation of the loop translation: the real mi_commit_mask_create (every start bit x 14 lengths -> the eight
+        # fields) against the regenerated function (Gen/Loops.lean)
+        if okd and 'rel' in hs:
+            cmd = [hs['rel'], 'cmask', str(chk.seed), '8000']
+            rc, out, err = V.run(cmd, timeout=120)
+            if rc == 0 and 'DONE' in out:       # and _mi_commit_mask_committed_size on full / nearly full / sparse / random masks
+                rcs, outs, errs = V.run([hs['rel'], 'csize', str(chk.seed), '4000'], timeout=120)
+                rc, out, err = rcs, out + outs, err + errs
+            args = {'cmd': 'harness/c07 ' + ' '.join(cmd[1:]), 'how_to_run': 'harness/c07 %s | lean/.lake/build/bin/midriver c07cm' % ' '.join(cmd[1:])}
+            if rc != 0 or 'DONE' not in out:
+                chk.violation('C07/commit-mask-create-crash', 'mi_commit_mask_create / _mi_commit_mask_committed_size crashed when driven directly: %s' % (err or out)[-300:].replace('\n', ' '), args)
+            else:
+                for l in out.splitlines():
+                    if l.startswith('FAIL'):
+                        chk.violation('C07/' + l.split()[1], 'real commit-mask function: %s' % l[5:300], args)
+                rc2, out2, err2 = V.run([exe, 'c07cm'], input=out, timeout=300)
+                summ = [l for l in out2.splitlines() if l.startswith('c07cmval cases')]
+                dl = [l for l in out2.splitlines() if l.startswith('DIFF')]
+                if summ:
+                    chk.count(int(summ[0].split()[2])); chk.extra['commit_mask_create_cases_compared'] = int(summ[0].split()[2])
+                if rc2 != 0 or dl or not summ:
+                    chk.broken_tie('translator validation: regenerated mi_commit_mask_create / _mi_commit_mask_committed_size and the real functions disagree', ((dl or [err2 or out2])[0])[:500] + ' | ' + args['how_to_run'])
+                chk.log('commit-mask translator validation (create + committed_size): %s' % (summ[0] if summ else 'no summary'))
         chk.log('direct drive: %d steps replayed through the model, %d disagreements' % (steps, diffs))
         if steps == 0 and not chk.broken:
             chk.broken_tie('direct drive', 'no step was replayed')
